@@ -468,9 +468,28 @@ def value_def(fn, name: str) -> Optional[ast.expr]:
     return None
 
 
+def attr_def(fn, attr: str, before_line: Optional[int] = None) -> Optional[ast.expr]:
+    """The value `self.<attr>` holds at a use inside fn, when fn itself binds it: exactly one `self.<attr> = v` in fn, a statement
+    of the function body proper (not under a condition or loop), before the use, and nothing else in fn stores to it."""
+    if not isinstance(fn, (ast.FunctionDef, ast.AsyncFunctionDef)):
+        return None
+    stores = [n for n in walk_no_nested(fn) if isinstance(n, ast.Attribute) and n.attr == attr and isinstance(n.value, ast.Name)
+              and n.value.id == "self" and isinstance(n.ctx, (ast.Store, ast.Del))]
+    if len(stores) != 1:
+        return None
+    st = parent(stores[0])
+    if not (isinstance(st, ast.Assign) and len(st.targets) == 1 and st in fn.body):
+        return None
+    if before_line is not None and st.lineno >= before_line:
+        return None
+    return st.value
+
+
 def inline_locals(fn, expr: ast.expr, depth: int = 6) -> ast.expr:
-    """Replace single-assignment locals by their defining expression (bounded depth)."""
+    """Replace single-assignment locals by their defining expression (bounded depth); an attribute of self that the function
+    itself binds once, before the expression, is replaced likewise."""
     params = set(func_params(fn))
+    line0 = getattr(expr, "lineno", None)
 
     class T(ast.NodeTransformer):
         def __init__(self, d):
@@ -482,6 +501,13 @@ def inline_locals(fn, expr: ast.expr, depth: int = 6) -> ast.expr:
                 if v is not None:
                     return T(self.d - 1).visit(clone_expr(v))
             return node
+
+        def visit_Attribute(self, node):
+            if isinstance(node.ctx, ast.Load) and isinstance(node.value, ast.Name) and node.value.id == "self" and self.d > 0 and line0:
+                v = attr_def(fn, node.attr, line0)
+                if v is not None:
+                    return T(self.d - 1).visit(clone_expr(v))
+            return self.generic_visit(node)
 
     return T(depth).visit(clone_expr(expr))
 
